@@ -210,6 +210,88 @@ def subset_cases(ctx, cids, encs, count):
         yield case(cid, enc, rng.random() < 0.5, msg, 'seeded_subset')
 
 
+EDITS = ('drop_first_carrier', 'add_lower_carrier', 'resize_fixed', 'llvar_to_lllvar')
+
+
+def apply_edit(cfg, edit):
+    """Edit a configuration dict IN PLACE the way a caller might between two calls.  Returns False if not applicable."""
+    car = ref.carriers_of(cfg)
+    kind, bit = edit
+    c = cfg.get(str(bit))
+    if c is None:
+        return False
+    if kind == 'drop_first_carrier':
+        c.pop('field_processor', None)
+    elif kind == 'add_lower_carrier':
+        c['field_processor'] = 'PDS'
+    elif kind == 'resize_fixed':
+        c['field_length'] = c['field_length'] + 3
+    elif kind == 'llvar_to_lllvar':
+        c['field_type'] = 'LLLVAR'
+    return True
+
+
+def pick_edit(rng, cfg):
+    car = ref.carriers_of(cfg)
+    kind = rng.choice(EDITS)
+    bits = gen.data_bits(cfg)
+    if kind == 'drop_first_carrier' and car:
+        return (kind, car[0])
+    if kind == 'add_lower_carrier':
+        cands = [b for b in bits if cfg[str(b)]['field_type'] == 'LLLVAR' and not cfg[str(b)].get('field_processor')
+                 and gen.is_text(cfg[str(b)]) and (not car or b < car[0])]
+        if cands:
+            return (kind, rng.choice(cands))
+    if kind == 'resize_fixed':
+        cands = [b for b in bits if cfg[str(b)]['field_type'] == 'FIXED' and gen.is_text(cfg[str(b)]) and not cfg[str(b)].get('field_processor')]
+        if cands:
+            return (kind, rng.choice(cands))
+    cands = [b for b in bits if cfg[str(b)]['field_type'] == 'LLVAR' and gen.is_text(cfg[str(b)]) and not cfg[str(b)].get('field_processor')]
+    if cands:
+        return ('llvar_to_lllvar', rng.choice(cands))
+    return None
+
+
+def edited_config_cases(ctx, cids, encs, count):
+    """
+    One configuration OBJECT used for a first message, then edited in place, then used again: the second call must follow
+    the configuration as it is now (no state may be remembered from the first call).
+    """
+    import copy
+    rng = ctx.rng('edited')
+    for j in range(count // ctx.nshards + 1):
+        cid = rng.choice(cids)
+        base = cfg_of(cid)
+        edit = pick_edit(rng, base)
+        if not edit:
+            continue
+        enc = rng.choice(encs)
+        msg1 = gen.gen_message(rng, base, enc, pds_mode=rng.choice(['keys', 'keys', 'none']))
+        after = copy.deepcopy(base)
+        apply_edit(after, edit)
+        msg2 = gen.gen_message(rng, after, enc, pds_mode=rng.choice(['keys', 'keys', 'raw']))
+        if str(edit[1]) and 'DE%d' % edit[1] not in msg2 and edit[0] in ('resize_fixed', 'llvar_to_lllvar'):
+            v = gen.gen_value(rng, after[str(edit[1])], enc)
+            if v:
+                msg2['DE%d' % edit[1]] = v
+        c = case(cid, enc, rng.random() < 0.5, msg2, 'config_edited_in_place')
+        c['first_msg'] = gen.jsonable(msg1)
+        c['edit'] = list(edit)
+        yield c
+
+
+def materialise_cfg(ctx, c, dumps):
+    """The configuration object a case is judged under: fresh deep copy; for edited cases, used once and edited in place."""
+    import copy
+    cfg = copy.deepcopy(cfg_of(c['cfg']))
+    if c.get('class') == 'config_edited_in_place':
+        first = gen.unjsonable(c['first_msg'])
+        ctx.call(dumps, dict(first), encoding=c['enc'], iso_config=cfg, hex_bitmap=c['hex'], budget=400000)
+        apply_edit(cfg, tuple(c['edit']))
+        ctx.count('configurations edited in place between two calls: ' + c['edit'][0])
+    return cfg
+
+
 def describe(msg, cfg):
     """Coverage classes of one message for the evidence file."""
     out = []
